@@ -3,6 +3,7 @@
 cd "$(dirname "$0")" || exit 2
 set -e
 cd spec
+rm -f *_TTrace_* *.bin; rm -rf states
 for m in *.tla; do
   java -cp /opt/veriftools/tla/tla2tools.jar:/opt/veriftools/tla/CommunityModules-deps.jar tla2sany.SANY "$m" > /tmp/verif_sany.$$ 2>&1 || { cat /tmp/verif_sany.$$; rm -f /tmp/verif_sany.$$; echo "SANY failed on $m"; exit 1; }
   if grep -q -E "Fatal errors|\*\*\* Errors|Could not find" /tmp/verif_sany.$$; then cat /tmp/verif_sany.$$; rm -f /tmp/verif_sany.$$; echo "SANY errors in $m"; exit 1; fi
